@@ -405,19 +405,74 @@ func dFaithful(t *testing.T, out *vOut, r *vRand, all []dEntryPts) {
 				fSet(canon, []string{"protocols", k}, map[string]any{})
 			}
 		}
-		cfg, err := dLoad(dDoc(e, doc))
+		// the instance under test is unnamed or named; a sibling instance of the same type (the decoy)
+		// is configured next to it with its own, different, settings
+		instID, decoyID := dInstIDs(r, e.Type)
+		decoyDoc, decoyCanon := map[string]any{}, map[string]any{}
+		type dw struct {
+			path  []string
+			canon string
+		}
+		var decoyW []dw
+		for _, l := range cand {
+			if r.Intn(100) >= 25 || l.path[len(l.path)-1] == "blocking" || l.path[len(l.path)-1] == "block_on_overflow" {
+				continue
+			}
+			var yv any
+			var cs string
+			switch l.n.kind {
+			case "bool":
+				b := r.Bool()
+				yv, cs = b, strconv.FormatBool(b)
+			case "int", "uint":
+				n := 101 + r.Intn(100)
+				yv, cs = n, strconv.Itoa(n)
+			case "float":
+				yv, cs = 0.75, "0.75"
+			case "duration":
+				n := 501 + r.Intn(100)
+				yv, cs = strconv.Itoa(n)+"s", strconv.FormatInt(int64(time.Duration(n)*time.Second), 10)
+			case "string":
+				sv := "decoy" + strconv.Itoa(r.Intn(1000))
+				yv, cs = sv, sv
+			}
+			fSet(decoyDoc, l.path, yv)
+			fSet(decoyCanon, l.path, cs)
+			decoyW = append(decoyW, dw{l.path, cs})
+		}
+		out.Stat("faithful.instance."+map[bool]string{true: "named", false: "unnamed"}[strings.Contains(instID, "/")], 1)
+		cfg, err := dLoad(dDocInst(e, instID, doc, map[string]any{decoyID: decoyDoc}))
 		term := "(CFaith " + vStr(e.Name) + " (" + def.coq() + ") (" + fCv(canon) + ") "
 		if err != nil {
 			out.Oracle("valid-setting-rejected", term+"(VRec []))", "load failed: "+err.Error())
 			continue
 		}
-		id := component.MustNewID(e.Type)
+		id := fID(instID)
 		got := fSection(cfg, e.Kind)[id]
 		if got == nil {
-			out.Oracle("component-missing", term+"(VRec []))", "component not in the loaded configuration")
+			out.Oracle("component-missing", term+"(VRec []))", "component "+instID+" not in the loaded configuration")
 			continue
 		}
 		obs := fExtract(reflect.ValueOf(got), &sDesc{Kind: "ptr", Elem: e.D})
+		// the decoy got exactly its own settings too; both instances as one CSec case
+		if dgot := fSection(cfg, e.Kind)[fID(decoyID)]; dgot == nil {
+			out.Oracle("component-missing", term+"(VRec []))", "component "+decoyID+" not in the loaded configuration")
+		} else {
+			dobs := fExtract(reflect.ValueOf(dgot), &sDesc{Kind: "ptr", Elem: e.D})
+			for _, w := range decoyW {
+				o := dobs.get(w.path)
+				if o == nil || !o.leaf || o.val != w.canon {
+					out.Oracle("written-key-not-reflected", term+"(VRec []))", fmt.Sprintf("instance %s: %s written %s, typed config has %v", decoyID, strings.Join(w.path, "::"), w.canon, o))
+				}
+			}
+			if len(fSection(cfg, e.Kind)) != 2 {
+				out.Oracle("component-missing", term+"(VRec []))", fmt.Sprintf("section has %d instances, 2 were written", len(fSection(cfg, e.Kind))))
+			}
+			out.Case(len(written)+len(decoyW) > 0, "(CSec "+vStr(e.Name)+" ("+def.coq()+") "+
+				vList([]string{vPair(vStr(instID), fCv(canon)), vPair(vStr(decoyID), fCv(decoyCanon))})+" "+
+				vList([]string{vPair(vStr(instID), obs.coq()), vPair(vStr(decoyID), dobs.coq())})+")")
+			out.Stat("faithful.csec", 1)
+		}
 		// effective configuration, as handed to ConfigWatcher extensions
 		eff := confmap.New()
 		if err := eff.Marshal(cfg); err != nil {
@@ -596,7 +651,7 @@ func dFaithful(t *testing.T, out *vOut, r *vRand, all []dEntryPts) {
 		// configuration must come back (Part 7: encode_o, then overlay onto the factory defaults)
 		if sec, ok := fGetAny(effMap, []string{e.Kind, id.String()}); ok {
 			rterm := "(CRound " + vStr(e.Name) + " (" + def.coqO(false) + ") (" + obs.coqO(true) + ") "
-			cfg2, err2 := dLoad(dDoc(e, sec))
+			cfg2, err2 := dLoad(dDocInst(e, instID, sec, nil))
 			if err2 != nil {
 				out.Oracle("effective-config-not-reloadable", rterm+"(VRec []))", "the effective configuration of the component does not load: "+err2.Error())
 			} else if got2 := fSection(cfg2, e.Kind)[id]; got2 != nil {
@@ -666,6 +721,14 @@ func dFaithful(t *testing.T, out *vOut, r *vRand, all []dEntryPts) {
 var fSecretRe = regexp.MustCompile(`SECRET-[0-9]+`)
 
 func componentID(typ string) component.ID { return component.MustNewID(typ) }
+
+func fID(s string) component.ID {
+	var id component.ID
+	if err := id.UnmarshalText([]byte(s)); err != nil {
+		panic(err)
+	}
+	return id
+}
 
 func fSameDuration(es, canon string) bool {
 	d, err := time.ParseDuration(es)
